@@ -15,8 +15,40 @@ def load_catalogue():
     return mutants.MUTANTS
 
 
+def patch_variants(prop):
+    """committed patch files used as regression variants of the self-test:
+       /verif/twins/*/*.diff      behaviour-preserving refactorings written by independent sub-agents: every check must stay silent
+       /verif/seeded/<id>/        property-breaking changes: the checks recorded in meta.json['detection']['reported_by'] must still report them"""
+    import glob
+    verif = os.path.dirname(HERE)
+    out = []
+    for f in sorted(glob.glob(os.path.join(verif, 'twins', '*', '*.diff'))):
+        tid = 'twin:' + os.path.relpath(f, os.path.join(verif, 'twins'))[:-5]
+        out.append(dict(id=tid, props=[prop] if prop else ALL_PROPS(), what='independent behaviour-preserving refactoring', patch=f, expect='silent'))
+    for d in sorted(glob.glob(os.path.join(verif, 'seeded', '*'))):
+        mf, pf = os.path.join(d, 'meta.json'), os.path.join(d, 'patch.diff')
+        if not (os.path.exists(mf) and os.path.exists(pf)):
+            continue
+        m = json.load(open(mf))
+        by = sorted(m.get('detection', {}).get('reported_by', {}))
+        props = [p for p in by if prop is None or p == prop]
+        if props:
+            out.append(dict(id='seed:' + m['id'], props=props, what=(m.get('summary') or '')[:90], patch=pf, expect='fire', rules=None))
+    return out
+
+
+def ALL_PROPS():
+    return sorted(f[:-3].upper() for f in os.listdir(os.path.join(HERE, 'props')) if f.startswith('c') and f[1:3].isdigit() and f.endswith('.py'))
+
+
 def apply_mutant(mut, dst_repo):
     """returns True if applied"""
+    if mut.get('patch'):
+        import subprocess
+        r = subprocess.run(['git', 'apply', '--unsafe-paths', '--directory=' + dst_repo, mut['patch']], capture_output=True, text=True, cwd=dst_repo)
+        if r.returncode != 0:
+            r = subprocess.run(['patch', '-p1', '-s', '-i', mut['patch']], capture_output=True, text=True, cwd=dst_repo)
+        return r.returncode == 0
     for path, old, new in mut['edits']:
         p = os.path.join(dst_repo, path)
         if not os.path.exists(p):
@@ -38,7 +70,7 @@ def _run_one(args):
     try:
         shutil.copytree(os.path.join(src_repo, 'synapgrad'), os.path.join(tmp, 'synapgrad'), ignore=shutil.ignore_patterns('__pycache__'))
         if not apply_mutant(mut, tmp):
-            return dict(id=mut['id'], status='skipped', why='anchor text not found')
+            return dict(id=mut['id'], status='skipped', why='anchor text not found / patch does not apply')
         import sa.report
         import sa.check
         sa.report.EVIDENCE_DIR = evd
@@ -83,10 +115,12 @@ def evaluate(mut, out):
     return ok, '; '.join(msgs)
 
 
-def run_for(prop=None, src_repo=None, only=None, jobs=16):
+def run_for(prop=None, src_repo=None, only=None, jobs=16, patches=True):
     from sa.core import REPO
     src_repo = src_repo or REPO
-    cat = load_catalogue()
+    cat = list(load_catalogue())
+    if patches and os.environ.get('SA_NO_PATCH_VARIANTS') != '1':
+        cat += patch_variants(prop)
     work = []
     for m in cat:
         props = [p for p in m['props'] if prop is None or p == prop]
